@@ -20,7 +20,7 @@ XSI = 'xmlns:xsi="http://www.w3.org/2001/XMLSchema-instance"'
 CFG = {"version": "1.0", "steps": 2}
 
 _XSD = """<xs:schema xmlns:xs="http://www.w3.org/2001/XMLSchema">
- <xs:complexType name="T0"><xs:sequence><xs:element name="v" type="xs:int" minOccurs="0"/></xs:sequence><xs:attribute name="k" type="xs:anySimpleType"/></xs:complexType>
+ <xs:complexType name="T0"><xs:sequence><xs:element name="v" type="xs:int" minOccurs="0"/></xs:sequence><xs:attribute name="k" type="xs:anySimpleType"/><xs:anyAttribute namespace="##other" processContents="lax"/></xs:complexType>
  <xs:complexType name="T2"><xs:complexContent><xs:restriction base="T0"><xs:sequence><xs:element name="v" type="xs:int" minOccurs="0"/></xs:sequence>
      <xs:attribute name="k" type="xs:integer"/></xs:restriction></xs:complexContent></xs:complexType>
  <xs:complexType name="T1"><xs:complexContent><xs:extension base="T0"><xs:sequence>
@@ -29,10 +29,17 @@ _XSD = """<xs:schema xmlns:xs="http://www.w3.org/2001/XMLSchema">
  <xs:element name="r"><xs:complexType><xs:sequence>
    <xs:element name="i" type="T0" minOccurs="0" maxOccurs="unbounded"/>
    <xs:element name="f" type="xs:decimal" fixed="1.0" minOccurs="0"/>
+   %(S_ELEM)s
    <xs:any namespace="##other" processContents="lax" minOccurs="0"/>
   </xs:sequence></xs:complexType>
   <xs:key name="K"><xs:selector xpath="i|i/sub"/><xs:field xpath="@k"/></xs:key>
  </xs:element></xs:schema>"""
+
+# XSD 1.1 only: a simple-content element with an assertion on $value (absent from the 1.0 schema, where <s> is a plain string)
+_S_11 = ('<xs:element name="s" minOccurs="0"><xs:complexType><xs:simpleContent><xs:extension base="xs:string">'
+         '<xs:assert test="$value = (\'A\', \'B\')"/></xs:extension></xs:simpleContent></xs:complexType></xs:element>')
+_S_10 = '<xs:element name="s" type="xs:string" minOccurs="0"/>'
+XLINK = 'xmlns:xlink="http://www.w3.org/1999/xlink"'
 
 DOCS = [
     '<r><i k="1"><v>1</v></i><i k="2"/></r>',                                                              # valid
@@ -46,7 +53,13 @@ DOCS = [
     '<r %s><i k="1"/><note xmlns="urn:other" xsi:type="xs:string">x</note></r>' % XSI.replace('xmlns:xsi', 'xmlns:xs="http://www.w3.org/2001/XMLSchema" xmlns:xsi'),   # undeclared element with xsi:type under the lax wildcard
     '<r %s><i k="1"/><note xmlns="urn:other" xsi:nil="true"/></r>' % XSI,                                  # the same undeclared tag, nilled
     '<r %s><i k="1"/><note xmlns="urn:other" xsi:type="xs:string">x</note></r>' % XSI.replace('xmlns:xsi', 'xmlns:xs="urn:not-the-xsd-namespace" xmlns:xsi'),   # the same xsi:type string, its prefix bound to another namespace
+    '<r><i k="1"/><s>A</s></r>',                                                                           # the asserted value present
+    '<r><i k="1"/><s/></r>',                                                                               # an empty element under the same assertion
+    '<r %s><i k="1" xlink:type="bogus"/></r>' % XLINK,                                                     # an attribute of a namespace that is loaded on demand (bundled XLink schema)
 ]
+PROBES = [3, 5, 7, 9, 10, 11, 12]          # quick tier: probe documents whose result depends on state the library keeps (positions in MAIN_DOCS)
+MAIN_DOCS = list(range(13))                 # every document but the last: loading the XLink schema on demand under the tracer costs seconds
+ONDEMAND_DOCS = [0, 13]
 # Template 2: one global element referenced under two parents, each parent with its own key reaching content that exists
 # only through xsi:type (the selector widening recorded on the shared declaration must not depend on who came first).
 _XSD2 = """<xs:schema xmlns:xs="http://www.w3.org/2001/XMLSchema">
@@ -76,6 +89,7 @@ def configure(cfg):
     CFG["fixed"] = {}
     CFG["docsel"] = None
     CFG["tpl"] = None
+    CFG["psel"] = None
     CFG.update(cfg)
 
 
@@ -89,10 +103,16 @@ def _fresh():
         from crosshair.tracers import NoTracing, is_tracing
         if is_tracing():
             with NoTracing():
-                return cls(_XSD2 if CFG.get("tpl") == 2 else _XSD)
+                return cls(_schema_text())
     except ImportError:
         pass
-    return cls(_XSD2 if CFG.get("tpl") == 2 else _XSD)
+    return cls(_schema_text())
+
+
+def _schema_text():
+    if CFG.get("tpl") == 2:
+        return _XSD2
+    return _XSD % {"S_ELEM": _S_11 if CFG["version"] == "1.1" else _S_10}
 
 
 def _run(schema, op, doc):
@@ -139,7 +159,7 @@ def _probe(schema, doc):
 
 
 THOROUGH_OPS = ("is_valid", "decode-lax", "iter_errors-partial", "decode-max_depth2")
-THOROUGH_DOCS = [1, 3, 5, 6, 7, 8, 9, 10]
+THOROUGH_DOCS = [1, 3, 5, 6, 8, 10, 11, 12, 13]
 
 
 def _docs():
@@ -150,7 +170,7 @@ def _docs():
 
 def pre_hist(fn, **kw):
     for k, v in kw.items():
-        lim = len(OPS) if k[0] == 'o' else len(_docs())
+        lim = len(OPS) if k[0] == 'o' else (len(CFG["psel"]) if (k == 'p' and CFG.get("psel")) else len(_docs()))
         if not (0 <= v < lim):
             return False
     return True
@@ -183,7 +203,8 @@ def h_history(**kw) -> bool:
         op = OPS[pick(_a(kw, "o%d" % s), len(OPS))]
         doc = docs[pick(_a(kw, "d%d" % s), len(docs))]
         _run(work, op, doc)
-    pi = pick(kw["p"], len(docs))
+    psel = CFG.get("psel")
+    pi = psel[pick(kw["p"], len(psel))] if psel else pick(kw["p"], len(docs))
     return _probe(work, docs[pi]) == _reference(pi)
 
 
@@ -193,7 +214,7 @@ def explain(fn, args):
     work, ref = _fresh(), _fresh()
     for s in range(CFG["steps"]):
         _run(work, OPS[_a(args, "o%d" % s)], DOCS[_a(args, "d%d" % s)])
-    probe = DOCS[args["p"]]
+    probe = DOCS[CFG["psel"][args["p"]] if CFG.get("psel") else args["p"]]
     return "history %r probe %s: after history %r, fresh %r" % (hist, probe[:60], _probe(work, probe)[:2], _probe(ref, probe)[:2])
 
 
@@ -223,8 +244,13 @@ def obligations(tier, seed):
                 # one obligation per first operation: first document, second step and probe symbolic
                 out.append({"name": "history/%s/first=%s" % (version, OPS[o0]), "fn": "h_history", "pre": "pre_hist",
                             "args": [["d0", "int"], ["p", "int"]],
-                            "config": {"version": version, "steps": 1, "fixed": {"o0": o0}}, "timeout": 600, "twin_timeout": 40,
-                            "bound": "histories of 1 step (%s on any of %d documents), every probe document" % (OPS[o0], len(DOCS))})
+                            "config": {"version": version, "steps": 1, "fixed": {"o0": o0}, "psel": PROBES, "docsel": MAIN_DOCS}, "timeout": 600, "twin_timeout": 40,
+                            "bound": "histories of 1 step (%s on any of %d documents), probe documents %r" % (OPS[o0], len(MAIN_DOCS), PROBES)})
+                if OPS[o0] == "is_valid":
+                    out.append({"name": "history-ondemand/%s" % version, "fn": "h_history", "pre": "pre_hist",
+                                "args": [["d0", "int"], ["p", "int"]],
+                                "config": {"version": version, "steps": 1, "fixed": {"o0": o0}, "docsel": ONDEMAND_DOCS}, "timeout": 600, "twin_timeout": 40,
+                                "bound": "an attribute of a namespace that is loaded on demand: first document and probe from documents %r" % (ONDEMAND_DOCS,)})
             else:
                 # two steps: both operations fixed per obligation (a selection of stateful ones), documents and probe symbolic
                 # over the documents that leave state behind (xsi:type, identity, wildcard cache)
